@@ -1,7 +1,7 @@
 (* C19 -- dsDNA completion adds the antiparallel Watson-Crick complement.
    Statements only; every proof is `exact <lemma>`; Print Assumptions under each. *)
 From Coq Require Import ZArith String List Bool.
-From PV Require Import ListX Dna Gen_dna C19_dna C19_linear.
+From PV Require Import ListX Dna Gen_dna C19_dna C19_strands.
 Import ListNotations.
 Open Scope Z_scope.
 
@@ -72,6 +72,14 @@ Theorem C19_algorithm_on_linear_strands : forall s comps, s <> [] -> comp_strand
              map n_resid (g_nodes g') = map (fun k => Z.of_nat k + 1) (seq 0 (2 * List.length s)).
 Proof. exact (complement_linear BASE_LIBRARY). Qed.
 Print Assumptions C19_algorithm_on_linear_strands.
+
+(* ... and on the graph parse_ig builds for a circular strand of ANY length >= 3 (chain edges,
+   then the labelled closing edge): the iterator closes the ring and stops *)
+Theorem C19_algorithm_on_circular_strands : forall s comps, (3 <= List.length s)%nat -> comp_strand BASE_LIBRARY s = Some comps ->
+  exists g', complement BASE_LIBRARY (circular s) = Ok g' /\ map n_name (g_nodes g') = (s ++ comps)%list /\
+             map n_resid (g_nodes g') = map (fun k => Z.of_nat k + 1) (seq 0 (2 * List.length s)).
+Proof. exact (complement_circular BASE_LIBRARY). Qed.
+Print Assumptions C19_algorithm_on_circular_strands.
 
 Example C19_nonvacuous :
   comp_strand BASE_LIBRARY ["DA5"; "DG"; "DC3"]%string = Some ["DG5"; "DC"; "DT3"]%string.
